@@ -1284,7 +1284,7 @@ class C05(Prop):
 # ---------------------------------------------------------------------------
 class C18(Prop):
     id = "C18"
-    gens = ["GenBindings"]
+    gens = ["GenBindings", "GenDefines"]
     header = 1
     n_quick = 400
     n_thorough = 8000
